@@ -91,6 +91,13 @@ def palettes(draw, k_max=4):
 
 
 def label_values(z, wide):
+    if z == 1 and not wide:
+        # hydrogen: deuterium and tritium (D / T symbols in molfiles)
+        return [0, 0, 0, 2, 3, 2], [0, 0, 0, 0, 0, 1, 2, 3]
+    return _label_values(z, wide)
+
+
+def _label_values(z, wide):
     # few distinct values so that equal labels on several atoms are common
     masses = [0, 0, 0, 0, 2 * z + 1, 2 * z + 2] if not wide else [0, 0, 0, 1, 1, 2, 2, 3, 10, 2 * z + 1, 999, 1000, 1000, 1001, 10**9]
     rads = [0, 0, 0, 0, 0, 1, 2, 3] if not wide else [0, 0, 0, 1, 2, 3, 4, 4, 5, 6, 7, 8, 9, 10, 10, 11, 20, 100, 10**9]
@@ -308,6 +315,29 @@ def fam_skeleton(draw, big=False):
         zs = [z] * p[0] + [z2] * p[1]
     mode = draw(st.sampled_from(["none", "one", "one", "sparse", "sparse", "dense"]))
     return draw(decorate(zs, edges, "skeleton:" + name, label_mode=mode))
+
+
+@st.composite
+def fam_hubs(draw):
+    """Two hub atoms of very high degree (beyond any coordination number in the corpus) that
+    differ only in a few neighbours of the lowest-ranking kind."""
+    k = draw(st.sampled_from([7, 8, 9, 11, 12, 13, 14, 16, 20, 30]))
+    hub = draw(st.sampled_from([57, 26, 92, 6]))
+    leaf = draw(st.sampled_from([9, 17, 8]))
+    a = draw(st.integers(0, 2))
+    b = draw(st.integers(0, 3))
+    joined = draw(st.booleans())
+    zs, edges = [hub, hub], []
+    for h, extra in ((0, a), (1, b)):
+        for _ in range(k):
+            zs.append(leaf)
+            edges.append((h, len(zs) - 1))
+        for _ in range(extra):
+            zs.append(1)
+            edges.append((h, len(zs) - 1))
+    if joined:
+        edges.append((0, 1))
+    return draw(decorate(zs, edges, f"skeleton:hubs{k}", label_mode=draw(st.sampled_from(["none", "none", "one"]))))
 
 
 # ---- WL-hard graphs ---------------------------------------------------------------
@@ -774,7 +804,7 @@ def mols(tier="quick", families=("er", "skeleton", "wlhard", "chem", "deep", "co
     q = tier == "quick"
     table = {
         "er": [fam_er(14 if q else 20, wide=wide), fam_er(8, wide=wide), fam_er(40 if q else 80, wide=wide)],
-        "skeleton": [fam_skeleton(big=not q), fam_skeleton(big=not q)],
+        "skeleton": [fam_skeleton(big=not q), fam_skeleton(big=not q), fam_hubs()],
         "wlhard": [fam_wlhard(216 if q else 432)],
         "chem": [fam_chem(12 if q else 30), fam_chem(6)],
         "deep": [fam_deep(300 if q else 900), fam_slowwl()],
